@@ -39,7 +39,8 @@ def own_bag(cell):
 def run(chk):
     W, tlc = chk.workdir, chk.tlc
     cfg = os.path.join(W, "rawgds.cfg")
-    open(cfg, "w").write("SPECIFICATION Spec\nINVARIANTS VerticesInside ShapesSimple Disjoint Emit\nCHECK_DEADLOCK FALSE\n")
+    ndeep = 3000 if chk.tier == "thorough" else 25
+    open(cfg, "w").write(f"SPECIFICATION Spec\nCONSTANT NDeep = {ndeep}\nINVARIANTS VerticesInside ShapesSimple Disjoint Emit\nCHECK_DEADLOCK FALSE\n")
     r = tlc.check(os.path.join(D, "MC_RawGds.tla"), cfg, timeout=3600)
     chk.add_tlc("MC_RawGds shapes x nets x layers x units x hierarchies", r)
     chk.tlc_must_pass("MC_RawGds", r)
